@@ -720,6 +720,23 @@ impl<F: Read + Write + Seek> Package<F> {
         self.check_catalog_rows(COLUMNS_TABLE_NAME, &columns_rows)?;
         self.check_catalog_rows(TABLES_TABLE_NAME, &tables_rows)?;
         self.check_catalog_rows(VALIDATION_TABLE_NAME, &validation_rows)?;
+        // Not every MSI file has a _Validation table; without one there is
+        // nowhere to record a value range, foreign key, category or
+        // enumeration, so refuse them rather than lose them on the next open.
+        if table_name != VALIDATION_TABLE_NAME
+            && !self.tables.contains_key(VALIDATION_TABLE_NAME)
+            && validation_rows
+                .iter()
+                .any(|row| row[3..9].iter().any(|value| !value.is_null()))
+        {
+            invalid_input!(
+                "This package has no {:?} table, so columns of table {:?} \
+                 cannot have a value range, foreign key, category or \
+                 enumeration",
+                VALIDATION_TABLE_NAME,
+                table_name
+            );
+        }
         self.insert_rows(Insert::into(COLUMNS_TABLE_NAME).rows(columns_rows))?;
         self.insert_rows(Insert::into(TABLES_TABLE_NAME).rows(tables_rows))?;
         let long_string_refs = self.string_pool.long_string_refs();
